@@ -1211,6 +1211,7 @@ func runC11(cfg Config, r *Result) {
 	if runtime.GOARCH != "amd64" {
 		r.Note("GOARCH=%s: the model writes Go's amd64 float->int conversion; on other architectures out-of-range conversions differ", runtime.GOARCH)
 	}
+	defer c11InPlaceStrings(cfg, r)
 	if cfg.Replay != "" {
 		c11Replay(cfg.Replay, model, r)
 		if r.Evaluations > 0 || len(r.Violations) > 0 {
